@@ -59,6 +59,23 @@ impl Case<'_> {
             hex_full(self.stream)
         )
     }
+    /// For summaries: long streams are abbreviated (the replay artefact has the full stream).
+    fn render_short(&self) -> String {
+        if self.stream.len() <= 96 {
+            return self.render();
+        }
+        format!(
+            "target={} block={} sched={} judge={} arena={:?} stream=[{} bytes: {} ... {}]",
+            self.target,
+            block_name(self.block),
+            self.sched.render(),
+            self.judge.map(|j| j.render()).unwrap_or("-".into()),
+            self.arena,
+            self.stream.len(),
+            hex_full(&self.stream[..24]),
+            hex_full(&self.stream[self.stream.len() - 40..])
+        )
+    }
     fn run(&self) -> Result<usize, String> {
         set_breadcrumb(format!("case: {}\n", self.render()).as_bytes());
         match self.target {
@@ -105,7 +122,8 @@ fn judged(rep: &mut Report, prop: &str, case: &Case) -> Option<usize> {
                 machinery_failure(&format!("violation did not reproduce identically: {} / {} / {:?}", case.render(), e, again));
             }
             let r = case.render();
-            rep.violation(Violation { key: format!("{}:{}", prop, r.replace(' ', ";")), summary: format!("stream [{}]: {}", r, e), replay_text: format!("case: {}\nobserved: {}\n", r, e) });
+            let key = if case.stream.len() <= 96 { r.replace(' ', ";") } else { format!("{};{:016x}", case.render_short().replace(' ', ";"), hash_of(&case.stream)) };
+            rep.violation(Violation { key: format!("{}:{}", prop, key), summary: format!("stream [{}]: {}", case.render_short(), e), replay_text: format!("case: {}\nobserved: {}\n", r, e) });
             None
         }
     }
@@ -338,6 +356,78 @@ fn crash_histories(ctx: &Ctx, rep: &mut Report, mode: Mode, unit: &mut usize) {
     ));
 }
 
+/// Family (iv): block-size and buffer edges.  (a) arena / block edge: for every block size B in
+/// 4090..=4098 and every n in B-5..=B+2, a valid record whose encoding is exactly n bytes, a
+/// delimiter, a second record: the delimiter's FE lands on every position around the end of a read
+/// and around the end of the reader's first arena chunk.  (b) large blocks: FE FD at every position
+/// around 4096, 8192, 16384, 32768, 64008..64014, 65536 and 131072 of a stuff-free filler, alone and
+/// after an earlier short chunk, with block sizes 65536, 70000 and the 512 KiB default.
+fn edges(ctx: &Ctx, rep: &mut Report, mode: Mode, unit: &mut usize) {
+    let prop = ctx.prop.clone();
+    let mut streams = 0u64;
+    let record_of_len = |n: usize| -> Option<Vec<u8>> {
+        // payload length p such that the canonical encoding has exactly n bytes
+        for p in n.saturating_sub(40)..=n {
+            let payload: Vec<u8> = (0..p).map(|i| 0x41 + (i % 23) as u8).collect();
+            let e = encode_record(&payload);
+            if e.len() == n {
+                return Some(e);
+            }
+        }
+        None
+    };
+    for b in 4090usize..=4098 {
+        let u = *unit;
+        *unit += 1;
+        if !ctx.owns(u) {
+            continue;
+        }
+        for n in b - 5..=b + 2 {
+            let Some(first) = record_of_len(n) else { continue };
+            let mut s = first.clone();
+            s.extend_from_slice(&[0xFE, 0xFD]);
+            s.extend_from_slice(&encode_record(b"second"));
+            one_stream(rep, &prop, mode, &s, &[Some(b)], 1, false, &ARENA_STATES[..1]);
+            // the same with a torn first record (garbage of the same length)
+            let mut t = first.clone();
+            t[0] = 0xFF;
+            t.extend_from_slice(&[0xFE, 0xFD]);
+            t.extend_from_slice(&encode_record(b"second"));
+            one_stream(rep, &prop, mode, &t, &[Some(b)], 0, false, &ARENA_STATES[..1]);
+            streams += 2;
+        }
+    }
+    let mut positions: Vec<usize> = Vec::new();
+    for c in [4096usize, 8192, 16384, 32768, 65536, 131072] {
+        for d in 0..=6 {
+            positions.push(c + d - 3);
+        }
+    }
+    positions.extend(64004..=64016usize);
+    if ctx.tier == Tier::Thorough {
+        positions.extend(253 * 253 - 4..=253 * 253 + 4);
+        positions.extend(2 * 64008 - 4..=2 * 64008 + 8);
+    }
+    for p in positions {
+        let u = *unit;
+        *unit += 1;
+        if !ctx.owns(u) {
+            continue;
+        }
+        let filler: Vec<u8> = (0..p).map(|i| 0x30 + (i % 61) as u8).collect();
+        for prefix in [&b""[..], &[0x78, 0x79, 0x7A, 0xFE, 0xFD][..]] {
+            let mut s = prefix.to_vec();
+            s.extend_from_slice(&filler);
+            s.extend_from_slice(&[0xFE, 0xFD]);
+            s.extend_from_slice(&encode_record(b"ab"));
+            one_stream(rep, &prop, mode, &s, &[Some(65536), Some(70000), None], 1, false, &ARENA_STATES[..1]);
+            streams += 1;
+        }
+    }
+    rep.count("edge_streams", streams);
+    rep.note("family (iv): block sizes 4090..=4098 x first-record encodings of B-5..=B+2 bytes (valid, and torn) followed by a delimiter and a second record; FE FD at every position within 3 of 4096 / 8192 / 16384 / 32768 / 65536 / 131072 and at 64004..=64016 of a stuff-free filler (alone and after a short first chunk) with block sizes 65536, 70000 and the 512 KiB default; full reads and every single deviation".to_string());
+}
+
 /// Family (iii): garbage segments that only a *lenient* decoder would accept: a valid first chunk,
 /// then a 2-byte header (lo, hi) for every lo and hi in {0, 1} with exactly the body a lenient
 /// reading of that header expects, delimited and followed by a good record.
@@ -511,10 +601,12 @@ fn run(ctx: &Ctx) -> Report {
             all_streams(ctx, &mut rep, Mode::Reader, &mut unit);
             crash_histories(ctx, &mut rep, Mode::Reader, &mut unit);
             header_garbage(ctx, &mut rep, Mode::Reader, &mut unit);
+            edges(ctx, &mut rep, Mode::Reader, &mut unit);
         }
         "C08" => {
             all_streams(ctx, &mut rep, Mode::Chunker, &mut unit);
             crash_histories(ctx, &mut rep, Mode::Chunker, &mut unit);
+            edges(ctx, &mut rep, Mode::Chunker, &mut unit);
         }
         "C05" => {
             crash_histories(ctx, &mut rep, Mode::Both, &mut unit);
